@@ -65,6 +65,8 @@ class Shadow:
         # observations for offline checks: (uid, cid, step)
         self.labels: list[tuple[int, bytes, int]] = []
         self.told_recent: set[int] = set()     # uids told \Recent
+        self.told_in_cmd: set[int] = set()     # uids whose FLAGS arrived
+        self.told_pos_in_cmd: set[int] = set()
         self.counters = {'expunge': 0, 'exists': 0, 'fetch': 0,
                          'fetch_uid_checked': 0, 'search_checked': 0,
                          'glass': 0, 'glass_unavailable': 0}
@@ -207,6 +209,9 @@ class Shadow:
         if b'FLAGS' in att:
             fl = norm_flags(att[b'FLAGS'])
             self.flags[n - 1] = fl
+            self.told_pos_in_cmd.add(n)
+            if eff_uid is not None:
+                self.told_in_cmd.add(eff_uid)
             if b'\\recent' in fl and eff_uid is not None:
                 self.told_recent.add(eff_uid)
 
